@@ -2,7 +2,7 @@
 
     gen/gotrans (config gen/gotrans/kfmt_fmt.json, extension gen/gotrans/ext_fmt.go) regenerates
     Gen/Trans_kfmt_fmt.v from fmt.go on every run: [go_kfmt_fmtRepeat], [go_kfmt_fmtBool], [go_kfmt_fmtString],
-    [go_kfmt_fmtInt] (and [go_kfmt_Fprintf], exercised by Props/C15_trans_examples.v, not yet by a theorem).
+    [go_kfmt_fmtInt] and [go_kfmt_Fprintf] (proofs for the latter: Kfmt/FmtTransScan.v).
     There the package-level buffers numFmtBuf / singleByte are fields of [go_kfmt_world], an interface{} value is a
     [gany] (Lib/GoOpsFmt.v), Go's int / int64 are two's complement representatives in [0, 2^64) ([sz] reads them as
     integers), [w : bool] says whether the io.Writer is non-nil, and every call doWrite(w, p) is the event
@@ -14,7 +14,7 @@
     returns [Ok], and the regenerated function - with the stated fuel - returns [GOk] (no run-time panic, fuel
     suffices), has made exactly the model's Write calls, in order, and leaves the model's numFmtBuf. *)
 From Coq Require Import NArith ZArith String List.
-From FF Require Import Lib.Word Lib.GoOps Lib.GoOpsFmt Gen.Consts_kfmt Gen.Trans_kfmt_fmt Kfmt.Fmt Kfmt.FmtTrans.
+From FF Require Import Lib.Word Lib.GoOps Lib.GoOpsFmt Gen.Consts_kfmt Gen.Trans_kfmt_fmt Kfmt.Fmt Kfmt.FmtSpec Kfmt.FmtTrans Kfmt.FmtTransScan.
 Import ListNotations.
 Local Open Scope N_scope.
 
@@ -81,3 +81,40 @@ Theorem C15_fmtRepeat_is_translation :
       = GOk (mk_go_kfmt_world (pushed w (repeat [ch] (Z.to_nat (sz cnt))) tr) buf [ch], tt).
 Proof. exact fmtRepeat_trans_full. Qed.
 Print Assumptions C15_fmtRepeat_is_translation.
+
+(** Fprintf: EVERY format string (any bytes: unknown verbs, a trailing '%', digit runs that wrap the 64-bit int) and
+    EVERY argument list (values of [gany] within the range of their type, strings / byte slices of a length Go can
+    have; too short, too long, mistyped), any contents of numFmtBuf, any singleByte, any writer: the model's
+    [fprintf] (the function of C15_fprintf_exact / C15_fprintf_never_panics) returns [Ok] with output [out], and
+    with fuel above  len(format) + len(args) + len(out) + 34  - the scanner makes at most len(format)+1 steps per
+    loop, every padding / string step writes a byte of [out], fmtInt needs 34 - the regenerated Fprintf returns
+    [GOk] (no run-time panic, no index out of range on format / args / numFmtBuf / singleByte, fuel suffices) and
+    the concatenation of the bytes of its doWrite events, in call order, is [out]. *)
+Theorem C15_fprintf_is_translation :
+  forall (w : bool) (tr : list gcall) (buf : list N) (x : N) (fmt : list N) (gargs : list gany),
+    length buf = N.to_nat kfmt_numFmtBufLen ->
+    N.of_nat (length fmt) < 4611686018427387904 -> N.of_nat (length gargs) < 4611686018427387904 ->
+    Forall gany_wf gargs -> Forall str_ok gargs ->
+    exists out,
+      written (fprintf fmt (map of_gany gargs) buf) = Ok out /\
+      forall FU, (length fmt + length gargs + length out + 34 < FU)%nat ->
+        exists tr' buf' y,
+          go_kfmt_Fprintf FU (mk_go_kfmt_world tr buf [x]) w fmt gargs = GOk (mk_go_kfmt_world tr' buf' [y], tt) /\
+          trace_bytes tr' = trace_bytes tr ++ out.
+Proof. exact fprintf_is_translation. Qed.
+Print Assumptions C15_fprintf_is_translation.
+
+(** ... composed with C15_fprintf_exact: for every WELL-FORMED format (the property's quantifier) the regenerated
+    Fprintf writes exactly the specification's [render] *)
+Theorem C15_fprintf_translation_renders :
+  forall (w : bool) (tr : list gcall) (buf : list N) (x : N) (ps : list piece) (gargs : list gany),
+    length buf = N.to_nat kfmt_numFmtBufLen ->
+    N.of_nat (length (encode ps)) < 4611686018427387904 -> N.of_nat (length gargs) < 4611686018427387904 ->
+    Forall piece_wf ps -> Forall gany_wf gargs ->
+    Forall (fun g => match g with GAStr s | GABytes s => glen s < 4611686018427387904 | _ => True end) gargs ->
+    forall FU, (length (encode ps) + length gargs + length (render ps (map of_gany gargs)) + 34 < FU)%nat ->
+      exists tr' buf' y,
+        go_kfmt_Fprintf FU (mk_go_kfmt_world tr buf [x]) w (encode ps) gargs = GOk (mk_go_kfmt_world tr' buf' [y], tt) /\
+        trace_bytes tr' = trace_bytes tr ++ render ps (map of_gany gargs).
+Proof. exact fprintf_trans_render. Qed.
+Print Assumptions C15_fprintf_translation_renders.
